@@ -150,6 +150,95 @@ func runXor(tier string, shard, shards int, rep *SeqReport) {
 			rep.family("shapes "+im.name, cnt)
 			rep.outcome(fmt.Sprintf("%s la=%d", im.name, la))
 		}
+		// large operands: lengths around every power of two up to 64 KiB (block/chunk loops with a tail),
+		// equal and unequal, both aliasings, two alignments, two content patterns
+		unit++
+		if (unit-1)%shards == shard {
+			var cnt int64
+			var sizes []int
+			for p := 256; p <= 65536; p *= 2 {
+				sizes = append(sizes, p-1, p, p+1, p+p/2)
+			}
+			if tier == "thorough" {
+				for p := 256; p <= 16384; p *= 2 {
+					sizes = append(sizes, p-8, p-7, p+7, p+8, 3*p)
+				}
+			}
+			const guard = 16
+			for _, la := range sizes {
+				for _, lb := range []int{la, la - 1, la + 5} {
+					n := la
+					if lb < n {
+						n = lb
+					}
+					for _, off := range []int{0, 3} {
+						for alias := 0; alias < 3; alias++ {
+							for pi := 0; pi < 2; pi++ {
+								mk := func(l int, salt byte) []byte {
+									w := make([]uint64, (l+2*guard+8)/8+2)
+									buf := unsafe.Slice((*byte)(unsafe.Pointer(&w[0])), l+2*guard+8)
+									for i := range buf {
+										if pi == 0 {
+											buf[i] = byte(i*7+1) ^ salt
+										} else if (i/2048)%2 == 0 {
+											buf[i] = 0
+										} else {
+											buf[i] = 0xFF ^ salt
+										}
+									}
+									return buf
+								}
+								Ab, Bb, Db := mk(la, 0x00), mk(lb, 0x5A), mk(n, 0xC3)
+								a, b := Ab[guard+off:guard+off+la], Bb[guard+off:guard+off+lb]
+								A1, B1, D1 := append([]byte(nil), Ab...), append([]byte(nil), Bb...), append([]byte(nil), Db...)
+								dst := Db[guard+off : guard+off+n]
+								dstBuf, dstOrig := Db, D1
+								switch alias {
+								case 1:
+									dst, dstBuf, dstOrig = a, Ab, A1
+								case 2:
+									dst, dstBuf, dstOrig = b, Bb, B1
+								}
+								r := im.f(dst, a, b)
+								cnt++
+								bad := ""
+								if r != n {
+									bad = fmt.Sprintf("returned %d, want %d", r, n)
+								}
+								for i := 0; i < len(dstBuf) && bad == ""; i++ {
+									want := dstOrig[i]
+									if j := i - guard - off; j >= 0 && j < n {
+										want = A1[guard+off+j] ^ B1[guard+off+j]
+									}
+									if dstBuf[i] != want {
+										bad = fmt.Sprintf("byte %d of dst (offset %d of the result) is %#x, want %#x", i, i-guard-off, dstBuf[i], want)
+									}
+								}
+								for _, pr := range [][2][]byte{{Ab, A1}, {Bb, B1}, {Db, D1}} {
+									if &pr[0][0] == &dstBuf[0] {
+										continue
+									}
+									for i := range pr[0] {
+										if pr[0][i] != pr[1][i] && bad == "" {
+											bad = fmt.Sprintf("byte %d of an operand that is not dst changed", i)
+										}
+									}
+								}
+								if bad != "" {
+									rep.violate("xor large "+im.name, "C20 wrong-result "+im.name,
+										fmt.Sprintf("%s XorBytes: %s", im.name, bad),
+										fmt.Sprintf("len(a)=%d len(b)=%d off=%d alias=%d pattern=%d", la, lb, off, alias, pi))
+								}
+							}
+						}
+					}
+				}
+			}
+			rep.Evaluations += cnt
+			rep.Transitions += cnt
+			rep.States += cnt
+			rep.family("large "+im.name, cnt)
+		}
 		// all byte values for n <= 2
 		unit++
 		if (unit-1)%shards == shard {
@@ -188,7 +277,7 @@ func runXor(tier string, shard, shards int, rep *SeqReport) {
 
 func init() {
 	register(&Check{ID: "C20", Seq: runXor,
-		Rule: "full enumeration: len(a), len(b) in 0..72 (thorough 0..136) independently x start offsets mod 8 of a, b, dst (quick {0,1,3,7}, thorough 0..7) x aliasing {none, dst==a, dst==b} x dst exactly n or n+3 long x 3 content patterns, plus all 256x256 byte values for n<=2; on the implementation this toolchain builds (xor_generic.go) and on xor_old.go compiled with its build constraint lifted; every byte of the three guarded arenas is compared",
+		Rule: "full enumeration: len(a), len(b) in 0..72 (thorough 0..136) independently x start offsets mod 8 of a, b, dst (quick {0,1,3,7}, thorough 0..7) x aliasing {none, dst==a, dst==b} x dst exactly n or n+3 long x 3 content patterns, plus all 256x256 byte values for n<=2, plus large operands (lengths p-1, p, p+1, 1.5p for every power of two p = 256..65536, equal and unequal, both aliasings, two alignments, two content patterns); on the implementation this toolchain builds (xor_generic.go) and on xor_old.go compiled with its build constraint lifted; every byte of the three guarded arenas is compared",
 		Assumptions: []string{"xor_arm.go/.s cannot execute on amd64 and no emulator is installed: the ARM assembly is not covered",
 			"contents come from 6 patterns incl. zero and all-ones words (XOR is bitwise-independent) plus all byte pairs for n<=2"}})
 }
